@@ -43,7 +43,7 @@ def cases(ctx):
     rng, tier = ctx["rng"], ctx["tier"]
     out = []
     n = 250 if tier == "quick" else 4000
-    feats = {"blocks", "scopes", "macros", "if", "for", "reloc", "data", "ascii", "symbols"}
+    feats = {"blocks", "scopes", "macros", "if", "for", "reloc", "data", "ascii", "symbols", "files"}
     for i in range(n):
         rom = rng.choice(["low", "low", "high", "low2"])
         c, tree = core.prog_case(rng, "generated", rom=rom, features=feats,
